@@ -268,7 +268,7 @@ example : (exVar.argToks defaultEnv true).bind (cMeaning defaultEnv)
 /-! ### witnesses of the open findings (outside `WF`): Shroud's reading differs from C++ -/
 
 open Shroud.Gen.DeclTables Shroud.Cxx in
-/-- `unsigned long size_t` (former finding `meaning:name-is-a-type`, fixed by c918081): a variable
+/-- `unsigned long size_t` (former finding `meaning:name-is-a-type`, fixed by 4cf149c): a variable
     named size_t of type unsigned long for C++ and, now, for Shroud too (outside `WF`: the name is
     also a type name) -/
 example :
@@ -281,7 +281,7 @@ example :
   constructor <;> rfl
 
 open Shroud.Gen.DeclTables in
-/-- `size_t int x` (former finding `typename-plus-specifier`, fixed by 462fc2a) is a parse error -/
+/-- `size_t int x` (former finding `typename-plus-specifier`, fixed by c944844) is a parse error -/
 example : parse defaultEnv [tk .ID "size_t", tk .TYPE_SPECIFIER "int", tk .ID "x"]
     = .reject "type specifier 'int' cannot be combined with the type name 'size_t'" := by rfl
 
